@@ -616,6 +616,94 @@ class TreeRoundTrip(Contract):
         return "TreeInfo(%s) serialised into a parser and re-read" % ", ".join("%s=%s" % (k, concretise.py_repr(v)) for k, v in sorted(f.items()))
 
 
+TI_VARIANT_KEYS = ("id", "uid", "name", "type")
+
+
+class TreeVariantsReaderValid(Contract):
+    """treeinfo Variants.deserialize on a current-format parser whose [tree] lists one variant and whose [variant-<uid>] section is
+    valid except for ONE corruption: option k (id, uid, name, type) replaced by an arbitrary string, or deleted.  A normal return means
+    the option was present and the registered variant satisfies the documented rules (id without '-', type in the table) (C07)."""
+
+    def __init__(self, src, T, k, mode):
+        self.src, self.T, self.k, self.mode = src, T, k, mode
+        self.name = "productmd.treeinfo.Variants.deserialize[variant section: %s %s]" % (k, "corrupted" if mode == "corrupt" else "deleted")
+        self.key = "de:treeinfo.Variants:%s:%s" % (k, mode)
+
+    def setup(self, E):
+        ti, _ = _mk(E, TI_SECTIONS["treeinfo.Release"])
+        uid = SV(sym.Val.VStr(z3.Const("sec.uid", sym.S)))
+        name = SV(sym.Val.VStr(z3.Const("sec.name", sym.S)))
+        typ = SV(sym.Val.VStr(z3.Const("sec.type", sym.S)))
+        bad = SV(sym.Val.VStr(z3.Const("corrupt.%s" % self.k, sym.S)))
+        E.assume(And(sym.in_lang(uid, r"[A-Za-z0-9]+"), sym.isin(typ, self.T.TREE_VARIANT_TYPES), Not(eq(typ, "addon"))))
+        good = {"id": uid, "uid": uid, "name": name, "type": typ}
+        parser = _new_parser(E)
+        E.call(E.getattr_(parser, "add_section"), ["tree"])
+        E.call(E.getattr_(parser, "set"), ["tree", "variants", uid])
+        sec = sym.concat("variant-", uid)
+        E.call(E.getattr_(parser, "add_section"), [sec])
+        for a in TI_VARIANT_KEYS:
+            if a == self.k:
+                if self.mode == "corrupt":
+                    E.call(E.getattr_(parser, "set"), [sec, a, bad])
+                continue
+            E.call(E.getattr_(parser, "set"), [sec, a, good[a]])
+        return {"ti": ti, "parser": parser, "good": good, "bad": bad, "uid": uid}
+
+    def call(self, E, st):
+        return E.call(E.getattr_(st["ti"].fields["variants"], "deserialize"), [st["parser"]])
+
+    def post(self, E, st, out):
+        if out.kind == "raise":
+            return {"returns_only_with_required_keys": True}
+        vs = [e.value for e in st["ti"].fields["variants"].fields["variants"].entries if e.present is True]
+        ok = len(vs) == 1 and isinstance(vs[0], Obj)
+        if ok:
+            v = vs[0]
+            ok = And(is_str(v.fields["id"]), Not(sym.contains(v.fields["id"], "-")), sym.isin(v.fields["type"], self.T.TREE_VARIANT_TYPES))
+        return {"returns_only_with_required_keys": self.mode == "corrupt", "registered_variant_is_valid": ok}
+
+    def concretise(self, model, st):
+        sec = dict((a, concretise.value_of(model, v)) for a, v in st["good"].items())
+        if self.mode == "corrupt":
+            sec[self.k] = concretise.value_of(model, st["bad"])
+        else:
+            sec.pop(self.k)
+        return {"uid": concretise.value_of(model, st["uid"]), "section": sec}
+
+    def sample_inputs(self, rng):
+        for typ in ("variant", "optional"):
+            base = {"id": "Server", "uid": "Server", "name": "Server", "type": typ}
+            if self.mode == "delete":
+                d = dict(base)
+                d.pop(self.k)
+                yield {"uid": "Server", "section": d}
+            else:
+                for bad in ("", "a-b", "bogus", "Server-x", " ", "addon", "x"):
+                    yield {"uid": "Server", "section": dict(base, **{self.k: bad})}
+
+    def native_eval(self, inputs):
+        TI = self.src.mods["treeinfo"]
+        ti = TI.TreeInfo()
+        ti.header.set_current_version()
+        parser = ti._get_parser()
+        parser.add_section("tree")
+        parser.set("tree", "variants", inputs["uid"])
+        sec = "variant-%s" % inputs["uid"]
+        parser.add_section(sec)
+        for a, v in inputs["section"].items():
+            parser.set(sec, a, v)
+        nat = native_call(ti.variants.deserialize, parser)
+        if nat[0] == "raise":
+            return nat, {"returns_only_with_required_keys": True}
+        vs = list(ti.variants.variants.values())
+        ok = len(vs) == 1 and isinstance(vs[0].id, str) and "-" not in vs[0].id and vs[0].type in self.T.TREE_VARIANT_TYPES
+        return nat, {"returns_only_with_required_keys": self.k in inputs["section"], "registered_variant_is_valid": ok}
+
+    def describe(self, inputs):
+        return "treeinfo Variants.deserialize with [tree] variants=%r and [variant-%s] = %r" % (inputs["uid"], inputs["uid"], inputs["section"])
+
+
 def contracts(src, T):          # noqa: F811
     out = []
     for n in TI_SECTIONS:
@@ -628,4 +716,5 @@ def contracts(src, T):          # noqa: F811
                     continue
                 out.append(GeneralMirrors(src, T, nvar, main, mode))
     out.append(TreeRoundTrip(src, T))
+    out += [TreeVariantsReaderValid(src, T, k, mode) for k in TI_VARIANT_KEYS for mode in ("corrupt", "delete")]
     return out
